@@ -44,7 +44,7 @@ def check_container(b, c, key, rng):
     if out[0] != 'ok':
         b.V('C10', 'observer_raised', key + ('get_substances',), f"get_substances raised {out[0]}: {out[1]}")
     else:
-        names = sorted(s.name for s in out[1])
+        names = sorted(W.key_of(s) for s in out[1])
         present = sorted(n for n, a in mv.contents.items() if a > 20 * W.q_amt(n))
         listed = set(mv.contents)
         b.stats['obs:get_substances'] += 1
@@ -227,7 +227,7 @@ def check_plate(b, p, key, rng):
     if out[0] != 'ok':
         b.V('C10', 'observer_raised', key + ('plate_get_substances',), f"Plate.get_substances raised {out[0]}: {out[1]}")
     else:
-        names = set(s.name for s in out[1])
+        names = set(W.key_of(s) for s in out[1])
         present, listed = set(), set()
         for cell in cells:
             mv = mp.well(cell)
